@@ -765,3 +765,241 @@ Proof. split; [exact sync_refused|]. split; [exact never_ran | exact sync_allowe
 
 Lemma class_inhabited : wf ex_prog /\ o3 (drive ex_prog false) = Ok (VList [VInt 7]).
 Proof. split; [exact ex_wf | exact (proj1 ex_runs)]. Qed.
+
+(* ------------------------------------------------------------------ T8: AsyncioMode objects, re-entered functions *)
+(* h' extends h: every AsyncioMode object that existed in h has the same `_token` in h' *)
+Definition hext (h h' : heap) : Prop :=
+  (hnext h <= hnext h')%nat /\ forall j, (j < hnext h)%nat -> hget j h' = hget j h.
+
+Lemma hext_refl h : hext h h.
+Proof. split; auto. Qed.
+
+Lemma hext_trans a b c : hext a b -> hext b c -> hext a c.
+Proof.
+  intros [H1 H2] [H3 H4]. split; [eapply Nat.le_trans; eauto|].
+  intros j Hj. rewrite H4, H2; auto. eapply Nat.lt_le_trans; eauto.
+Qed.
+
+Lemma hext_enter i fl h : (hnext h <= i)%nat -> hext h (snd (enterH i fl h)).
+Proof.
+  intros Hi. split; cbn; auto. intros j Hj. unfold hget; cbn.
+  destruct (Nat.eqb i j) eqn:E; auto. apply Nat.eqb_eq in E. subst.
+  exfalso. eapply Nat.lt_irrefl. eapply Nat.lt_le_trans; eauto.
+Qed.
+
+(* __exit__ of the object entered at h finds the token its own __enter__ stored, whatever ran in between *)
+Lemma exit_after_enter fl fl' h h2 :
+  hext (snd (enterH (hnext h) fl h)) h2 -> exitH (hnext h) fl' h2 = fl.
+Proof.
+  intros [_ H]. unfold exitH. rewrite H by (cbn; auto). unfold hget; cbn. rewrite Nat.eqb_refl. reflexivity.
+Qed.
+
+Lemma thread_ref X R (f : X -> heap -> R * heap) (g : X -> R) l :
+  Forall (fun x => forall h, fst (f x h) = g x /\ hext h (snd (f x h))) l ->
+  forall h, fst (thread f l h) = map g l /\ hext h (snd (thread f l h)).
+Proof.
+  induction 1 as [|x r Hx Hr IH]; intros h; cbn.
+  - split; [reflexivity | apply hext_refl].
+  - destruct (Hx h) as [E1 E2]. destruct (f x h) as [r1 h1]. cbn in E1, E2.
+    destruct (IH h1) as [E3 E4]. destruct (thread f r h1) as [rs h2]. cbn in *.
+    split; [rewrite E1, E3; reflexivity | eapply hext_trans; eauto].
+Qed.
+
+Lemma Forall_concat_split X Y (P : Y -> Prop) (g : X -> list Y) (Q : X -> Prop) l :
+  Forall (fun x => Forall P (g x) -> Q x) l -> Forall P (concat (map g l)) -> Forall Q l.
+Proof.
+  induction 1 as [|x r Hx Hr IH]; cbn; intros Hc; constructor;
+    apply Forall_app in Hc; destruct Hc; auto.
+Qed.
+
+Section ResolveRef.
+  Variable A : Type.
+  Variable awH : A -> bool -> heap -> tr3 * heap.
+  Variable aw : A -> bool -> tr3.
+  Definition leaf_ref (a : A) : Prop := forall fl h, fst (awH a fl h) = aw a fl /\ hext h (snd (awH a fl h)).
+
+  Lemma resolveH_ref (s : ystruct A) :
+    Forall leaf_ref (yleaves s) ->
+    forall fl h, fst (resolveH awH s fl h) = resolve aw s fl /\ hext h (snd (resolveH awH s fl h)).
+  Proof.
+    induction s using ystruct_ind2; cbn [yleaves]; intros Hy fl h.
+    - cbn. split; [reflexivity | apply hext_refl].
+    - inversion Hy; subst. cbn. apply H1.
+    - cbn. split; [reflexivity | apply hext_refl].
+    - pose proof (Forall_concat_split _ _ _ _ _ l H Hy) as HF. cbn [resolveH resolve].
+      destruct (thread_ref _ _ (fun x h => resolveH awH x fl h) (fun x => resolve aw x fl) l
+                           ltac:(eapply Forall_impl; [|exact HF]; intros x Hx h0; apply Hx) h) as [E1 E2].
+      destruct (thread (fun x h0 => resolveH awH x fl h0) l h) as [rs h']. cbn in *. subst rs. split; auto.
+    - pose proof (Forall_concat_split _ _ _ _ _ l H Hy) as HF. cbn [resolveH resolve].
+      destruct (thread_ref _ _ (fun x h => resolveH awH x fl h) (fun x => resolve aw x fl) l
+                           ltac:(eapply Forall_impl; [|exact HF]; intros x Hx h0; apply Hx) h) as [E1 E2].
+      destruct (thread (fun x h0 => resolveH awH x fl h0) l h) as [rs h']. cbn in *. subst rs. split; auto.
+    - pose proof (Forall_concat_split _ _ _ (fun kv => yleaves (snd kv)) _ l H Hy) as HF. cbn [resolveH resolve].
+      destruct (thread_ref _ _ (fun kv h => resolveH awH (snd kv) fl h) (fun kv => resolve aw (snd kv) fl) l
+                           ltac:(eapply Forall_impl; [|exact HF]; intros x Hx h0; apply Hx) h) as [E1 E2].
+      destruct (thread (fun kv h0 => resolveH awH (snd kv) fl h0) l h) as [rs h']. cbn in *. subst rs. split; auto.
+  Qed.
+End ResolveRef.
+
+Definition prog_ref (p : prog) : Prop :=
+  forall fl h, fst (driveH fresh_inst p fl h) = drive p fl /\ hext h (snd (driveH fresh_inst p fl h)).
+
+Lemma callH_ref c p : prog_ref p ->
+  forall fl h, fst (call_asyncioH fresh_inst (driveH fresh_inst) c p fl h) = call_asyncio drive c p fl /\
+               hext h (snd (call_asyncioH fresh_inst (driveH fresh_inst) c p fl h)).
+Proof.
+  intros IH fl h. unfold call_asyncioH, call_asyncio.
+  destruct (cafn c); try (split; [reflexivity | apply hext_refl]).
+  - change (fresh_inst (cid c) h) with (hnext h). unfold mode_enter, mode_exit. cbn [enterH].
+    destruct (IH true (mkheap (S (hnext h)) ((hnext h, fl) :: hslots h))) as [E1 E2].
+    destruct (driveH fresh_inst p true _) as [r h2]. cbn [fst snd] in *. subst r.
+    rewrite (exit_after_enter fl _ h h2 E2).
+    destruct (drive p true) as [[o f] t]. cbn. split; [reflexivity|].
+    eapply hext_trans; [|exact E2]. apply (hext_enter (hnext h) fl h). auto.
+  - change (fresh_inst (cid c) h) with (hnext h). unfold mode_enter, mode_exit. cbn [enterH].
+    destruct (IH true (mkheap (S (hnext h)) ((hnext h, fl) :: hslots h))) as [E1 E2].
+    destruct (driveH fresh_inst p true _) as [r h2]. cbn [fst snd] in *. subst r.
+    rewrite (exit_after_enter fl _ h h2 E2).
+    destruct (drive p true) as [[o f] t]. cbn. split; [reflexivity|].
+    eapply hext_trans; [|exact E2]. apply (hext_enter (hnext h) fl h). auto.
+Qed.
+
+Lemma awaitH_ref a : lift prog_ref a -> leaf_ref _ (await_leafH fresh_inst (driveH fresh_inst)) (await_leaf drive) a.
+Proof.
+  destruct a; cbn [lift]; intros IH fl h; cbn [await_leafH await_leaf].
+  - split; [reflexivity | apply hext_refl].
+  - apply callH_ref; exact IH.
+  - change (fresh_inst c h) with (hnext h). unfold mode_enter, mode_exit. cbn [enterH].
+    pose proof (exit_after_enter fl true h _ (hext_refl _)) as Hx. cbn [enterH snd] in Hx. rewrite Hx. cbn.
+    split; [reflexivity | apply (hext_enter (hnext h) fl h); auto].
+  - change (fresh_inst c h) with (hnext h). unfold mode_enter, mode_exit. cbn [enterH].
+    pose proof (exit_after_enter fl true h _ (hext_refl _)) as Hx. cbn [enterH snd] in Hx. rewrite Hx.
+    destruct (callH_ref c' p IH fl (mkheap (S (hnext h)) ((hnext h, fl) :: hslots h))) as [E1 E2].
+    destruct (call_asyncioH fresh_inst (driveH fresh_inst) c' p fl _) as [r h2]. cbn [fst snd] in *. subst r.
+    destruct (call_asyncio drive c' p fl) as [[o f] t]. cbn. split; [reflexivity|].
+    eapply hext_trans; [|exact E2]. apply (hext_enter (hnext h) fl h). auto.
+Qed.
+
+Lemma driveH_ref : forall p, prog_ref p.
+Proof.
+  induction p using prog_ind2; intros fl h.
+  - cbn. split; [reflexivity | apply hext_refl].
+  - cbn. split; [reflexivity | apply hext_refl].
+  - cbn [driveH drive].
+    assert (HL : Forall (leaf_ref _ (await_leafH fresh_inst (driveH fresh_inst)) (await_leaf drive)) (yleaves s)).
+    { apply yall_leaves in H. eapply Forall_impl; [|exact H]. intros a Ha. apply awaitH_ref; exact Ha. }
+    destruct (resolveH_ref _ _ _ s HL fl h) as [E1 E2].
+    destruct (resolveH (await_leafH fresh_inst (driveH fresh_inst)) s fl h) as [r h1]. cbn [fst snd] in *. subst r.
+    destruct (resolve (await_leaf drive) s fl) as [[o f] t]. cbn [o3 f3 t3 fst snd].
+    destruct (H0 o f h1) as [E3 E4].
+    destruct (driveH fresh_inst (k o) f h1) as [r2 h2]. cbn [fst snd] in *. subst r2.
+    destruct (drive (k o) f) as [[o2 f2] t2]. cbn. split; [reflexivity | eapply hext_trans; eauto].
+  - cbn [driveH drive]. destruct fl.
+    + destruct al.
+      * destruct (H0 (Ok VNone) true h) as [E3 E4].
+        destruct (driveH fresh_inst (k (Ok VNone)) true h) as [r2 h2]. cbn [fst snd] in *. subst r2.
+        destruct (drive (k (Ok VNone)) true) as [[o2 f2] t2]. cbn. split; auto.
+      * destruct (H0 (Err E_RUNTIME) true h) as [E3 E4].
+        destruct (driveH fresh_inst (k (Err E_RUNTIME)) true h) as [r2 h2]. cbn [fst snd] in *. subst r2.
+        destruct (drive (k (Err E_RUNTIME)) true) as [[o2 f2] t2]. cbn. split; auto.
+    + destruct (eval_leaf eval a) as [o tr].
+      destruct (H0 o false h) as [E3 E4].
+      destruct (driveH fresh_inst (k o) false h) as [r2 h2]. cbn [fst snd] in *. subst r2.
+      destruct (drive (k o) false) as [[o2 f2] t2]. cbn. split; auto.
+Qed.
+
+Lemma runH_ref a fl h :
+  fst (run_asyncioH fresh_inst a fl h) = run_asyncio a fl /\ hext h (snd (run_asyncioH fresh_inst a fl h)).
+Proof.
+  unfold run_asyncioH, run_asyncio. apply awaitH_ref.
+  destruct a; cbn [lift]; auto; apply driveH_ref.
+Qed.
+
+(* a function that is re-entered while it runs: f(n) = if n = 0: return 1 (or raise) else: r = yield f.asynq(n - 1); return [r]
+   - every activation belongs to the same function *)
+Fixpoint ex_fact (bottom : prog) (n : nat) : prog :=
+  match n with
+  | O => bottom
+  | S m => Yield (YLeaf (LCall (mkcfg (Z.of_nat m) KGen AfNone) (ex_fact bottom m)))
+                 (fun o => match o with Ok v => Ret (VList [v]) | Err e => Raise e end)
+  end.
+Definition ex_rec_root (bottom : prog) (n : nat) : leaf prog := LCall (mkcfg (Z.of_nat n) KGen AfNone) (ex_fact bottom n).
+
+(* NOT the code: one AsyncioMode object per *function* (here: all activations are the same function),
+   entered by every activation of it.  Shows that the per-activation object of decorators.py:114/137
+   is what the theorem rests on: with a shared object the inner __enter__ overwrites the outer token. *)
+Definition per_function (fnof : Z -> nat) : inst_policy := fun id _ => fnof id.
+
+Example ex_shared_instance_leaks :
+  f3 (fst (run_asyncioH (per_function (fun _ => O)) (ex_rec_root (Ret (VInt 1)) 2) false heap0)) = true /\
+  f3 (fst (run_asyncioH (per_function (fun _ => O)) (ex_rec_root (Raise 7) 2) false heap0)) = true /\
+  f3 (fst (run_asyncioH (per_function (fun _ => O)) (ex_rec_root (Ret (VInt 1)) 0) false heap0)) = false /\
+  fst (run_asyncioH fresh_inst (ex_rec_root (Ret (VInt 1)) 2) false heap0)
+  = (Ok (VList [VList [VInt 1]]), false,
+     [EvBody 2 true; EvBody 1 true; EvBody 0 true; EvDone 0 (Ok (VInt 1)); EvDone 1 (Ok (VList [VInt 1]));
+      EvDone 2 (Ok (VList [VList [VInt 1]]))]) /\
+  o3 (fst (run_asyncioH fresh_inst (ex_rec_root (Raise 7) 3) false heap0)) = Err 7 /\
+  f3 (fst (run_asyncioH fresh_inst (ex_rec_root (Raise 7) 3) false heap0)) = false.
+Proof. repeat split; reflexivity. Qed.
+
+Lemma reentrant_mode_confined :
+  (forall a fl h, fst (run_asyncioH fresh_inst a fl h) = run_asyncio a fl) /\
+  (forall p fl h, fst (driveH fresh_inst p fl h) = drive p fl) /\
+  (forall a fl h, hext h (snd (run_asyncioH fresh_inst a fl h))) /\
+  (forall p fl h, hext h (snd (driveH fresh_inst p fl h))) /\
+  (forall a fl h, f3 (fst (run_asyncioH fresh_inst a fl h)) = fl) /\
+  (forall bottom n fl h, f3 (fst (run_asyncioH fresh_inst (ex_rec_root bottom n) fl h)) = fl).
+Proof.
+  split; [intros; apply runH_ref|]. split; [intros; apply driveH_ref|].
+  split; [intros; apply runH_ref|]. split; [intros; apply driveH_ref|].
+  assert (F : forall a fl h, f3 (fst (run_asyncioH fresh_inst a fl h)) = fl).
+  { intros a fl h. rewrite (proj1 (runH_ref a fl h)). apply await_flag. }
+  split; [exact F | intros; apply F].
+Qed.
+
+(* the caller keeps running after the await: its plain synchronous calls *)
+Lemma probe_off ap :
+  o3 (drive (probe_prog ap) false) = fst (eval_leaf eval (snd ap)) /\
+  f3 (drive (probe_prog ap) false) = false /\
+  In (EvSync SRan) (t3 (drive (probe_prog ap) false)).
+Proof.
+  unfold probe_prog. cbn [drive]. destruct (eval_leaf eval (snd ap)) as [[v|e] tr]; cbn; auto.
+Qed.
+
+Lemma probes_off ps :
+  map o3 (run_probes ps false) = map (fun ap => fst (eval_leaf eval (snd ap))) ps /\
+  Forall (fun x => In (EvSync SRan) (t3 x)) (run_probes ps false).
+Proof.
+  induction ps as [|ap r [IH1 IH2]]; cbn [run_probes map]; [split; auto|].
+  destruct (probe_off ap) as [E1 [E2 E3]]. rewrite E2. split; [rewrite E1, IH1; reflexivity | constructor; auto].
+Qed.
+
+Lemma probes_on ps :
+  Forall (fun ap => fst ap = false) ps ->
+  Forall (fun x => o3 x = Err E_RUNTIME /\ t3 x = [EvSync SRefused]) (run_probes ps true).
+Proof.
+  induction 1 as [|ap r Ha Hr IH]; cbn [run_probes]; constructor.
+  - unfold probe_prog. rewrite Ha. cbn. auto.
+  - unfold probe_prog at 1. rewrite Ha. cbn [drive f3 fst snd]. exact IH.
+Qed.
+
+Lemma caller_continues :
+  (forall a h g k,
+      drive (Sync false g k) (f3 (fst (run_asyncioH fresh_inst a false h))) =
+      (let r2 := drive (k (fst (eval_leaf eval g))) false in
+       (o3 r2, f3 r2, EvSync SRan :: snd (eval_leaf eval g) ++ t3 r2))) /\
+  (forall a h ps,
+      let xs := run_probes ps (f3 (fst (run_asyncioH fresh_inst a false h))) in
+      map o3 xs = map (fun ap => fst (eval_leaf eval (snd ap))) ps /\
+      Forall (fun x => In (EvSync SRan) (t3 x)) xs) /\
+  (forall a h ps, Forall (fun ap => fst ap = false) ps ->
+      Forall (fun x => o3 x = Err E_RUNTIME /\ t3 x = [EvSync SRefused])
+             (run_probes ps (f3 (fst (run_asyncioH fresh_inst a true h))))).
+Proof.
+  destruct reentrant_mode_confined as [_ [_ [_ [_ [F _]]]]].
+  split; [|split].
+  - intros a h g k. rewrite F. cbn [drive]. destruct (eval_leaf eval g) as [o tr]. cbn [fst snd].
+    destruct (drive (k o) false) as [[o2 f2] t2]. reflexivity.
+  - intros a h ps. cbn zeta. rewrite F. apply probes_off.
+  - intros a h ps Hp. rewrite F. apply probes_on; exact Hp.
+Qed.
